@@ -333,16 +333,16 @@ __ordtostr(char *buf, size_t bsz, size_t ndig)
 	}
 	/* assumes the actual number is printed in front of BUF already,
 	 * NDIG digits long, don't look further back than that */
+	for (; ndig > 1U && *(p - ndig) == '0'; ndig--, p--) {
+		/* discard leading zeros only, 05 -> 5 but 100 stays */
+		memmove(p - ndig, p - ndig + 1U, ndig - 1U);
+	}
 	if (ndig < 2) {
 		/* no tens to look at */
 		;
 	} else if (UNLIKELY(p[-2] == '1')) {
 		/* must be 11, 12, or 13 then */
 		goto teens;
-	} else if (p[-2] == '0') {
-		/* discard */
-		p[-2] = p[-1];
-		p--;
 	}
 	switch (p[-1]) {
 	default:
